@@ -21,6 +21,7 @@ package grpcgcp
 import (
 	"context"
 	"fmt"
+	"math"
 	"reflect"
 	"strings"
 	"sync"
@@ -128,8 +129,16 @@ func (p *gcpPicker) Pick(info balancer.PickInfo) (balancer.PickResult, error) {
 // by 2^(refresh count since last response) as a time.Duration. This provides
 // exponential backoff when RPCs keep deadline exceeded after consecutive reconnections.
 func (p *gcpPicker) unresponsiveWindow(scRef *subConnRef) time.Duration {
-	factor := uint32(1 << scRef.refreshCnt)
-	return time.Millisecond * time.Duration(factor*p.gb.cfg.GetChannelPool().GetUnresponsiveDetectionMs())
+	window := time.Millisecond * time.Duration(p.gb.cfg.GetChannelPool().GetUnresponsiveDetectionMs())
+	// Double in 64 bits and saturate: 32-bit arithmetic wrapped around for large
+	// detection periods or after many consecutive refreshes.
+	for i, cnt := uint32(0), scRef.refreshCnt; i < cnt; i++ {
+		if window > math.MaxInt64/2 {
+			return math.MaxInt64
+		}
+		window *= 2
+	}
+	return window
 }
 
 func (p *gcpPicker) detectUnresponsive(ctx context.Context, scRef *subConnRef, callStarted time.Time, rpcErr error) {
